@@ -75,6 +75,7 @@ struct Op {
     DataDesc data;
     int64_t utc = 0;
     int meta = 0;
+    bool nulldata = false;  // user data: pass data = NULL with data_size > 0 (documented rejection: PARAMETER_INVALID, nothing written)
 };
 
 struct Program {
@@ -108,6 +109,7 @@ inline mj::Value op_to_json(const Op & o) {
         v.set("sig", o.sig); v.set("id", (long long) o.sample_id); v.set("utc", (long long) o.utc);
     } else if (o.op == "user") {
         v.set("meta", o.meta); v.set("stor", o.stor); v.set("data", o.data.json());
+        if (o.nulldata) v.set("nulldata", true);
     } else if (o.op == "flush") {
         if (o.sig) v.set("sig", o.sig);   // threaded-writer programs: issued by the application thread that owns this signal
     }
@@ -145,6 +147,7 @@ inline Op op_from_json(const mj::Value & v) {
     } else if (o.op == "user") {
         o.meta = (int) v.get_int("meta", 0); o.stor = (int) v.get_int("stor", 1);
         if (v.has("data")) o.data = DataDesc::from(v.at("data"));
+        o.nulldata = v.has("nulldata") && v.at("nulldata").as_bool();
     } else if (o.op == "flush") {
         o.sig = (int) v.get_int("sig", 0);
     }
@@ -216,6 +219,7 @@ struct Model {
             if (!it->second.fsr) return 0;
             return 1;
         }
+        if (o.op == "user" && o.nulldata) return 0;
         if (o.op == "anno") {
             if (o.sig == 0) return 1;
             if (o.sig < 0 || o.sig >= 256 || !sigs.count(o.sig)) return 0;
@@ -333,6 +337,12 @@ inline int32_t exec_op(Writer & w, const Op & o, const Model & m) {
         return w.twr ? jls_twr_fsr(w.twr, (uint16_t) o.sig, o.sample_id, hb->p, o.n) : jls_wr_fsr(w.wr, (uint16_t) o.sig, o.sample_id, hb->p, o.n);
     }
     if (o.op == "omit") return w.twr ? jls_twr_fsr_omit_data(w.twr, (uint16_t) o.sig, (uint32_t) o.enable) : jls_wr_fsr_omit_data(w.wr, (uint16_t) o.sig, (uint32_t) o.enable);
+    if (o.op == "user" && o.nulldata) {
+        // the threaded writer copies from the pointer before anybody validates it: NULL is not a "valid pointer" there (C10's
+        // precondition), so this misuse is only issued to the synchronous writer, which documents the rejection
+        if (w.twr) return JLS_ERROR_PARAMETER_INVALID;
+        return jls_wr_user_data(w.wr, (uint16_t) o.meta, (enum jls_storage_type_e) o.stor, nullptr, o.data.n ? o.data.n : 1);
+    }
     if (o.op == "anno" || o.op == "user") {
         std::vector<uint8_t> b = o.data.bytes();
         uint32_t sz = (uint32_t) b.size();
